@@ -155,7 +155,7 @@ where
 
 pub fn sweep(ctx: &mut Ctx) {
     let mut rng = ctx.rng(0xC14);
-    let scripts = ctx.by_tier(4, 20);
+    let scripts = ctx.by_tier(4, 100);
     sweep_kind::<Bdd>(ctx, &mut rng, scripts, 1);
     sweep_kind::<Bcdd>(ctx, &mut rng, scripts, 1);
     sweep_kind::<Zbdd>(ctx, &mut rng, scripts, 1);
@@ -275,7 +275,7 @@ where
 
 pub fn import(ctx: &mut Ctx) {
     let mut rng = ctx.rng(0xC14_1);
-    let files = ctx.by_tier(3, 25);
+    let files = ctx.by_tier(3, 150);
     import_sweep::<Bcdd, Bdd>(ctx, &mut rng, files);
     import_sweep::<Bcdd, Bcdd>(ctx, &mut rng, files);
     import_sweep::<Bdd, Bdd>(ctx, &mut rng, files);
